@@ -348,7 +348,7 @@ theorem sendDataLoop_keeps (fuel : Nat) (e : Ep) (i : Nat) (out : List OutSeg) :
     · rename_i e' o heq; exact (hs.2 _ _ heq).trans (ih _ _ _)
 
 theorem sendData_keeps (e : Ep) : Keeps e (sendData e).1 := by
-  have := sendDataLoop_keeps (e.snd.writeList.length * 2 + 70000) e e.snd.writeNext []
+  have := sendDataLoop_keeps (sendFuel e.snd + 1) e e.snd.writeNext []
   unfold sendData
   simp only [Keeps, AckSync] at *
   split <;> simpa using this
@@ -372,15 +372,20 @@ theorem finishBatch_quiet (e : Ep) (out : List OutSeg) (r : Bool) : Quiet (finis
     · rename_i h
       exact closeIfDone_quiet _ (Or.inr (by simpa [AckSync] using h))
 
-theorem handleSegments_quiet (e : Ep) (l : List InSeg) (h : Quiet e) : Quiet (handleSegments e l).1 := by
-  fun_induction handleSegments e l with
-  | case1 e l hd => exact h
-  | case2 e l hd e1 out reset hb e2 out2 hf hlen => rw [← show (finishBatch e1 out reset).1 = e2 from by rw [hf]]; exact finishBatch_quiet _ _ _
-  | case3 e l hd e1 out reset hb e2 out2 hf hlen e3 out3 hr ih =>
-    simp only
-    rw [hr] at ih
-    apply ih
-    rw [← show (finishBatch e1 out reset).1 = e2 from by rw [hf]]; exact finishBatch_quiet _ _ _
+theorem handleSegmentsLoop_quiet (fuel : Nat) (e : Ep) (l : List InSeg) (h : Quiet e) : Quiet (handleSegmentsLoop fuel e l).1 := by
+  induction fuel generalizing e l with
+  | zero => exact h
+  | succ k ih =>
+    unfold handleSegmentsLoop
+    split
+    · exact h
+    · simp only
+      split
+      · exact finishBatch_quiet _ _ _
+      · exact ih _ _ (finishBatch_quiet _ _ _)
+
+theorem handleSegments_quiet (e : Ep) (l : List InSeg) (h : Quiet e) : Quiet (handleSegments e l).1 :=
+  handleSegmentsLoop_quiet _ e l h
 
 theorem keeps_quiet {e e' : Ep} (k : Keeps e e') (h : Quiet e) : Quiet e' := by
   rcases h with h | h
@@ -449,26 +454,28 @@ theorem quiet_inv : EpInv Quiet where
 
 theorem handleSegments_short (e : Ep) (l : List InSeg) (hd : e.done = false) (hl : l.length ≤ maxSegmentsPerWake) :
     handleSegments e l = finishBatch (handleBatch e l).1 (handleBatch e l).2.1 (handleBatch e l).2.2 := by
-  rw [handleSegments]
-  simp only [hd, Bool.false_eq_true, ↓reduceIte, hl, ↓reduceDIte]
+  unfold handleSegments
+  rw [handleSegmentsLoop]
+  simp only [hd, Bool.false_eq_true, ↓reduceIte, hl]
   rw [List.take_of_length_le hl]
 
 theorem handleCore_rst (e : Ep) (seg : InSeg) (hr : has seg.flags fRst = true) :
     handleCore e seg = (e, [], acceptable e.rcv seg.seq 0) := by
   unfold handleCore
   simp only [hr, ↓reduceIte]
-  split <;> simp_all
 
 theorem handleBatch_single (e : Ep) (seg : InSeg) :
     handleBatch e [seg] = ((handleCore e seg).1, (handleCore e seg).2.1, (handleCore e seg).2.2) := by
   simp only [handleBatch]
-  split <;> simp_all
+  split
+  · rfl
+  · rename_i h; simp; simpa using h
 
 theorem ep_rst_not_answered (e : Ep) (seg : InSeg) (hq : Quiet e) (hr : has seg.flags fRst = true) :
     (handleSegment e seg).2 = [] := by
   unfold handleSegment
   cases hd : e.done with
-  | true => rw [handleSegments]; simp [hd]
+  | true => unfold handleSegments; rw [handleSegmentsLoop]; simp [hd]
   | false =>
     have hs : AckSync e := by rcases hq with h | h; simp [hd] at h; exact h
     rw [handleSegments_short e [seg] hd (by simp [maxSegmentsPerWake]), handleBatch_single, handleCore_rst e seg hr]
